@@ -229,7 +229,8 @@ fn gen_handler(
     }
     let err = if custom_err && t.chance(50) { ErrTy::Custom } else { ErrTy::Std };
     let resp = gen_resp(t, nparams);
-    let resp_explicit = kind == Kind::Query && !matches!(resp, RespTy::Param(_)) && t.chance(20);
+    // `resp=<associated type>` in an interface does not compile (recorded finding, probed by C16)
+    let resp_explicit = kind == Kind::Query && t.chance(30) && !(assoc && matches!(resp, RespTy::Param(_)));
     let mut variant_attrs = vec![];
     if opts.allow_attrs && kind.is_enum() && t.chance(10) {
         variant_attrs.push(VariantAttr::Marker(mk.next()));
